@@ -241,6 +241,75 @@ pub fn drive_builder(a: &Args) {
         }
         out.emit(builder_record(&calls, ""));
     }
+    // tilings: k = 3..6 intervals covering the whole alphabet, at least 3 distinct targets (no majority), added in
+    // EVERY order for k = 4 and in sampled orders otherwise; without a default, with a default declared first / last
+    for k in 3..=6usize {
+        let cuts: Vec<u32> = (1..k as u32).map(|i| i * 0x100).collect();
+        let mut cells: Vec<(u32, u32)> = vec![];
+        let mut lo = 0;
+        for &c in &cuts {
+            cells.push((lo, c - 1));
+            lo = c;
+        }
+        cells.push((lo, MAX_CHAR));
+        let ns = 4u32;
+        let target_patterns: Vec<Vec<u32>> = vec![
+            (0..k as u32).map(|i| (i + 1) % ns).collect(),
+            (0..k as u32).map(|i| if i % 2 == 0 { 1 } else { 2 + (i / 2) % 2 }).collect(),
+            (0..k as u32).map(|i| (k as u32 - i) % ns).collect(),
+        ];
+        let mut perms: Vec<Vec<usize>> = vec![];
+        if k == 4 || (k == 3) {
+            // all permutations
+            fn rec(cur: &mut Vec<usize>, used: &mut Vec<bool>, k: usize, out: &mut Vec<Vec<usize>>) {
+                if cur.len() == k {
+                    out.push(cur.clone());
+                    return;
+                }
+                for i in 0..k {
+                    if !used[i] {
+                        used[i] = true;
+                        cur.push(i);
+                        rec(cur, used, k, out);
+                        cur.pop();
+                        used[i] = false;
+                    }
+                }
+            }
+            rec(&mut vec![], &mut vec![false; k], k, &mut perms);
+        } else {
+            for _ in 0..a.sz(12, 120) {
+                let mut p: Vec<usize> = (0..k).collect();
+                for i in (1..k).rev() {
+                    let j = rng.below(i as u64 + 1) as usize;
+                    p.swap(i, j);
+                }
+                perms.push(p);
+            }
+            perms.push((0..k).rev().collect());
+        }
+        for tp in &target_patterns {
+            for p in &perms {
+                for def in 0..3 {
+                    let mut calls = vec![Call::New(0)];
+                    if def == 1 {
+                        calls.push(Call::Def(0, 3));
+                    }
+                    for &i in p {
+                        calls.push(Call::Add(0, cells[i].0, cells[i].1, tp[i]));
+                    }
+                    if def == 2 {
+                        calls.push(Call::Def(0, 2));
+                    }
+                    for s in 1..ns {
+                        calls.push(Call::Def(s, s));
+                    }
+                    calls.push(Call::Fin(1));
+                    out.emit(builder_record(&calls, ""));
+                }
+            }
+        }
+    }
     let n = out.finish();
     println!("{{\"family\":\"builder-random\",\"events\":{}}}", n);
 }
@@ -464,8 +533,29 @@ pub fn drive_automata(a: &Args) {
     let mut rng = Rng::new(a.seed ^ 0xA7);
     let mut o1 = Out::create(&a.out, "dfa_random_minimize.ndjson");
     let mut o2 = Out::create(&a.out, "dfa_random_prune.ndjson");
-    for k in 0..a.sz(1500, 40000) {
-        let d = if k % 4 == 0 { random_abs(&mut rng, 4, 2) } else { random_abs(&mut rng, 12, 4) };
+    // escalation (asked for by the orchestrator when the hooked refinement diverged from Hopcroft.tla): many DFAs
+    // with few letters and many states, minimize() only
+    if let Some(i) = a.rest.iter().position(|x| x == "--escalate") {
+        let n: usize = a.rest[i + 1].parse().expect("--escalate N");
+        let mut oe = Out::create(&a.out, "dfa_escalation_minimize.ndjson");
+        let mut unused = Out::create(&a.out, "dfa_escalation_unused.ndjson");
+        for k in 0..n {
+            let mut d = random_abs(&mut rng, 14, 2);
+            while d.n < 4 {
+                d = random_abs(&mut rng, 14, 2);
+            }
+            dfa_records(&d, k % 3, &mut rng, true, false, &mut oe, &mut unused);
+        }
+        let (n1, _) = (oe.finish(), unused.finish());
+        println!("{{\"family\":\"automata-escalation\",\"minimize\":{}}}", n1);
+        return;
+    }
+    for k in 0..a.sz(1800, 40000) {
+        let d = match k % 6 {
+            0 => random_abs(&mut rng, 4, 2),
+            1 | 2 => random_abs(&mut rng, 14, 2),
+            _ => random_abs(&mut rng, 12, 4),
+        };
         dfa_records(&d, k % 3, &mut rng, want_min, want_c14, &mut o1, &mut o2);
     }
     // compiled automata
